@@ -327,7 +327,7 @@ func c02GenPD(t *rapid.T, id string, kindPrefix string, descIDs *[]string, usedI
 		}
 		pd.Descs = append(pd.Descs, d)
 	}
-	if rapid.IntRange(0, 9).Draw(t, label+"_subreq") < 4 {
+	if rapid.IntRange(0, 9).Draw(t, label+"_subreq") < 5 {
 		pd.SubReq = rapid.SampledFrom(c02SubReqSpellings).Draw(t, label+"_subreq_spelling")
 	}
 	return pd
@@ -409,6 +409,15 @@ func c02Gen(t *rapid.T) c02Case {
 			Name: rapid.SampledFrom(groups[g]).Draw(t, "defect"),
 			Arg:  rapid.IntRange(0, 25).Draw(t, "darg"),
 		})
+	}
+	// where the requested scope's definition spells submission requirements, "nothing presented" is tried on its own
+	// in a share of the cases (the spelling decides whether nothing satisfies it)
+	spelled := false
+	for _, pd := range []*c02PD{c.Policy[c.Scope].Org, c.Policy[c.Scope].User} {
+		spelled = spelled || (pd != nil && pd.SubReq != "")
+	}
+	if spelled && rapid.IntRange(0, 7).Draw(t, "nothing_presented_alone") == 0 {
+		c.Defects = []c02Defect{{Name: "nothing_presented", Arg: rapid.IntRange(0, 25).Draw(t, "np_arg")}}
 	}
 	sort.Slice(c.Defects, func(i, j int) bool { return c.Defects[i].Name < c.Defects[j].Name })
 
